@@ -165,6 +165,73 @@ pub fn client_scenario(r: &mut Rng, rounds: usize) -> (usize, bool, bool) {
     (delivered, panicked, alive)
 }
 
+/// a put whose store requests are answered with error messages in a given pattern of codes (one per storing peer): the
+/// tally of errors is kept sorted by count in the event loop. Afterwards the put has its outcome, and the node works.
+pub fn error_tally_scenario(r: &mut Rng, kind: u8, codes: &[i32]) -> (usize, bool, bool) {
+    let n = codes.len();
+    let mut s = Scn::new(r, n, false, Default::default());
+    watch(&format!("node_error_tally: put of kind {} to {} storing peers that answer its store requests with the error codes {:?} in this order", kind, n, codes));
+    let sk = SigningKey::from_bytes(&[4u8; 32]);
+    let request = make_request(r, kind, 3, None, b"tally", &sk);
+    let (tx, rx) = flume::unbounded();
+    s.node.actor.verif_put(request, tx, None);
+    let tokenless = vec![false; n];
+    let run = match catch_unwind(AssertUnwindSafe(|| drive_lookup(&mut s, &tokenless))) {
+        Ok(run) => run,
+        Err(_) => {
+            unwatch();
+            return (0, true, false);
+        }
+    };
+    let mut delivered = 0;
+    for (k, (p, tid, _)) in run.puts.iter().enumerate() {
+        let code = codes[k % codes.len()];
+        s.peers[*p].send(s.node.addr, *tid, MessageType::Error(dht::errors::ErrorSpecific { code, description: "scripted".into() }), false, None);
+        delivered += 1;
+        if tick_caught(&mut s, &mut |s, inc| s.honest(inc)) {
+            unwatch();
+            return (delivered, true, false);
+        }
+    }
+    let mut outcome = rx.try_recv().is_ok();
+    s.advance(3000);
+    for _ in 0..6 {
+        if tick_caught(&mut s, &mut |s, inc| s.honest(inc)) {
+            unwatch();
+            return (delivered, true, false);
+        }
+        outcome = outcome || rx.try_recv().is_ok();
+    }
+    // liveness: a fresh put against honest peers succeeds
+    let request = make_request(r, 0, 0, None, b"liveness after errors", &sk);
+    let (tx2, rx2) = flume::unbounded();
+    s.node.actor.verif_put(request, tx2, None);
+    let run = match catch_unwind(AssertUnwindSafe(|| drive_lookup(&mut s, &tokenless))) {
+        Ok(run) => run,
+        Err(_) => {
+            unwatch();
+            return (delivered, true, false);
+        }
+    };
+    for (p, tid, _) in run.puts.iter() {
+        let responder_id = dht::Id::from(s.peers[*p].id);
+        s.peers[*p].send(s.node.addr, *tid, MessageType::Response(ResponseSpecific::Ping(PingResponseArguments { responder_id })), false, None);
+    }
+    let mut alive = false;
+    for _ in 0..40 {
+        if tick_caught(&mut s, &mut |s, inc| s.honest(inc)) {
+            unwatch();
+            return (delivered, true, false);
+        }
+        if let Ok(res) = rx2.try_recv() {
+            alive = res.is_ok();
+            break;
+        }
+    }
+    unwatch();
+    (delivered, false, alive && outcome)
+}
+
 /// well-formed but hostile answers to the node's own lookups: every responder claims an id that shares its
 /// first 8..19 bytes with the target (the size estimate derived from such answers is astronomically large
 /// and saturates the integer it is kept in), hands out a token and lists some nodes; then more lookups of
@@ -242,6 +309,22 @@ pub fn generate(r: &mut Rng, scale: usize) -> Vec<(String, String)> {
     for i in 0..(4 * scale.max(1)) {
         let (n, p, a) = client_scenario(r, 9);
         out.push(("node_client".to_string(), format!("KNode {} {} {} {}", 100 + i, n, crate::coqfmt::boolean(p), crate::coqfmt::boolean(a))));
+    }
+    // error replies to a put in every order of two and three codes over four and five storing peers
+    let patterns: Vec<Vec<i32>> = vec![
+        vec![203, 203, 205, 205],
+        vec![203, 205, 205, 203],
+        vec![301, 302, 301, 302],
+        vec![302, 302, 301, 301, 302],
+        vec![999, 203, 999, 203, 205],
+        vec![205, 205, 205, 203],
+        vec![301, 301, 302, 205, 205],
+    ];
+    for (i, pat) in patterns.iter().enumerate() {
+        for kind in [0u8, 1] {
+            let (n, p, a) = error_tally_scenario(r, kind, pat);
+            out.push(("node_error_tally".to_string(), format!("KNode {} {} {} {}", 300 + 2 * i + kind as usize, n, crate::coqfmt::boolean(p), crate::coqfmt::boolean(a))));
+        }
     }
     for i in 0..(3 * scale.max(1)) {
         let (n, p, a) = sybil_scenario(r, 6);
